@@ -324,6 +324,28 @@ def check_imagepsf(case, ctx):
                             f'outside the sampled rectangle the model returns '
                             f'{out} instead of fill_value {fv} (flux {case["flux"]})')
     require(np.array_equal(data, d0), 'input_data_modified')
+    # the documented `origin` setter on an already evaluated model (and on a
+    # copy of it) gives what a model constructed with that origin gives
+    new_o = case.get('new_origin')
+    if new_o is not None:
+        no = (new_o[0] * (nx - 1), new_o[1] * (ny - 1))
+        kw2 = dict(kw, origin=no)
+        fresh = ImagePSF(data, flux=case['flux'], x_0=case['x0'], y_0=case['y0'], **kw2)
+        mc = m.copy()
+        with warnings.catch_warnings():
+            warnings.simplefilter('ignore')
+            m.origin = no
+            mc.origin = no
+            ev = np.asarray(fresh(x, y), float)
+            for obj, what in ((m, 'model'), (mc, 'copy of the model')):
+                gv = np.asarray(obj(x, y), float)
+                if not np.array_equal(gv, ev, equal_nan=True):
+                    raise Violation('origin_setter',
+                                    f'after evaluating and then setting origin = '
+                                    f'{no} the {what} differs from '
+                                    f'ImagePSF(origin={no})')
+            m.origin = (ox, oy)
+        ctx.event('origin_reassigned')
     # copies give the same values
     for c in (m.copy(), m.deepcopy(), copy.deepcopy(m)):
         with warnings.catch_warnings():
@@ -342,6 +364,8 @@ def imagepsf_cases(draw):
                                      st.tuples(st.floats(-0.5, 1.5), st.floats(-0.5, 1.5)).map(list))),
             'flux': draw(st.sampled_from([1.0, 0.0, 3.5, -2.0, 1000.0])),
             'x0': draw(st.floats(-30, 30)), 'y0': draw(st.floats(-30, 30)),
+            'new_origin': draw(st.one_of(st.none(), st.tuples(
+                st.floats(0, 1), st.floats(0, 1)).map(list))),
             'fill_value': draw(st.sampled_from([0.0, 0.0, -1.0, 10.0, float('nan')]))}
 
 
